@@ -165,10 +165,16 @@ Definition run_history (h : hcase) : list (list N) :=
   | _ => []
   end.
 
-Fixpoint tokens_eqb (a b : list N) : bool :=
+(* [wildcard]: the harness writes this token where the implementation said something the projection does not
+   recognise (a failure text that is none of the known phrases, an engine error code other than 101/102/103):
+   wording and new codes are not part of any property.  It matches any single model token; everything around it
+   (that there is a failure event / an engine error, its run, step, position) is still compared. *)
+Definition wildcard : N := 4000000007.
+
+Fixpoint tokens_eqb (a b : list N) : bool :=     (* a: model, b: implementation *)
   match a, b with
   | [], [] => true
-  | x :: a', y :: b' => N.eqb x y && tokens_eqb a' b'
+  | x :: a', y :: b' => (N.eqb x y || N.eqb y wildcard) && tokens_eqb a' b'
   | _, _ => false
   end.
 
@@ -197,7 +203,7 @@ Definition mismatches (hs : list hcase) : list N := mismatches_from 0 hs.
 Fixpoint first_diff (i : nat) (a b : list N) : option (nat * option N * option N) :=
   match a, b with
   | [], [] => None
-  | x :: a', y :: b' => if N.eqb x y then first_diff (S i) a' b' else Some (i, Some x, Some y)
+  | x :: a', y :: b' => if N.eqb x y || N.eqb y wildcard then first_diff (S i) a' b' else Some (i, Some x, Some y)
   | x :: _, [] => Some (i, Some x, None)
   | [], y :: _ => Some (i, None, Some y)
   end.
